@@ -16,7 +16,7 @@ from symx.real import SReal, RN, within_rounding
 from symx.models import SDateTime
 from spec import cosem_ref as CR
 
-ENGINE_EXC = (PathAbort, EngineLimit, EngineFault)
+ENGINE_EXC = (PathAbort, EngineLimit, EngineFault) + core.HARNESS_SIDE
 FX = json.load(open(os.path.join(os.path.dirname(os.path.abspath(__file__)), "..", "spec", "fixtures.json")))
 
 
@@ -231,6 +231,10 @@ def compare(ctx, exp, got, w, label, only=None):
         if only and k not in only:
             continue
         what = f"{label}: {name} ({k})"
+        if k in ("scaled", "ratio", "ratio2", "int") and isinstance(g, (int, float)) and not isinstance(g, bool):
+            # a concrete number came out (the code concretised the register, e.g. through int.from_bytes): pin the transmitted
+            # values to what the path allows (one fork per feasible value) and compare with plain arithmetic
+            e = (e[0],) + tuple(concretize(x) if isinstance(x, SInt) else x for x in e[1:])
         if k in ("scaled", "ratio", "ratio2", "int") and isinstance(g, (int, float)) and not isinstance(g, bool) and all(isinstance(x, int) for x in e[1:]):
             r = CR.compare_concrete({name: e}, {name: g})          # everything concrete on this path: plain arithmetic
             ok = ctx.check(z3.BoolVal(r is None), what + " [concrete]", w)
